@@ -268,22 +268,22 @@ theorem makeBlocks_parses (E : Env) (ok : EnvOK E) (hashOf : Array UInt8 → Boo
 
 /-- **end to end**: the frame the model produces for `blocks` is, for the stream specification, one complete LZ4 frame whose content is
     exactly the concatenation of the blocks, with nothing left over -/
-theorem frame_parses (E : Env) (ok : EnvOK E) (hashOf : Array UInt8 → Bool → Nat → Nat) (p : Prefs) (hb : 4 ≤ p.bsid ∧ p.bsid ≤ 7)
-    (hcs64 : p.contentSize < 256 ^ 8) (hd32 : p.dictID < 256 ^ 4) (blocks : List Bytes)
+theorem frameFrom_parses (E : Env) (ok : EnvOK E) (hashOf : Array UInt8 → Bool → Nat → Nat) (p : Prefs) (hb : 4 ≤ p.bsid ∧ p.bsid ≤ 7)
+    (hcs64 : p.contentSize < 256 ^ 8) (hd32 : p.dictID < 256 ^ 4) (S0 : FastR.RState) (hJ0 : FastR.J S0) (blocks : List Bytes)
     (hall : ∀ b ∈ blocks, b ≠ [] ∧ b.length ≤ blockSizeOf p.bsid) (hcs : p.contentSize = 0 ∨ p.contentSize = blocks.flatten.length) :
-    pFrame E [] (blocks.length + 1) (frame E hashOf p blocks) = .ok (blocks.flatten, []) := by
+    pFrame E [] (blocks.length + 1) (frameFrom E hashOf p S0 blocks) = .ok (blocks.flatten, []) := by
   have p32 : (256 : Nat) ^ 4 = 4294967296 := by decide
-  unfold frame header pFrame Parser.bind
+  unfold frameFrom header pFrame Parser.bind
   simp only [List.append_assoc]
   rw [takeN_app (encLE 4 LZ4V.Gen.LZ4F_MAGICNUMBER) _ 4 (encLE_length 4 _)]
   have hm : le (encLE 4 LZ4V.Gen.LZ4F_MAGICNUMBER) = lz4Magic := by decide
   simp only [hm, ne_eq, not_true_eq_false, ↓reduceIte]
   unfold pFrameBody Parser.bind
-  have hh := header_parses E p hb hcs64 hd32 (makeBlocks E hashOf p {} blocks ++ (encLE 4 0 ++ (if p.contentChecksum = true then encLE 4 (E.hash blocks.flatten) else [])))
+  have hh := header_parses E p hb hcs64 hd32 (makeBlocks E hashOf p S0 blocks ++ (encLE 4 0 ++ (if p.contentChecksum = true then encLE 4 (E.hash blocks.flatten) else [])))
   simp only [List.append_assoc] at hh
   rw [hh]
   simp only []
-  have hbk := makeBlocks_parses E ok hashOf p hb blocks {} FastR.J_init hall [] (if p.contentChecksum = true then encLE 4 (E.hash blocks.flatten) else [])
+  have hbk := makeBlocks_parses E ok hashOf p hb blocks S0 hJ0 hall [] (if p.contentChecksum = true then encLE 4 (E.hash blocks.flatten) else [])
   rw [List.nil_append] at hbk
   rw [hbk]
   simp only []
@@ -307,5 +307,11 @@ theorem frame_parses (E : Env) (ok : EnvOK E) (hashOf : Array UInt8 → Bool →
       · rw [if_pos hz, h0]; simp
       · rw [if_neg hz]; simp
   simp only [hc1, hc2, ↓reduceIte, Parser.pure]
+
+theorem frame_parses (E : Env) (ok : EnvOK E) (hashOf : Array UInt8 → Bool → Nat → Nat) (p : Prefs) (hb : 4 ≤ p.bsid ∧ p.bsid ≤ 7)
+    (hcs64 : p.contentSize < 256 ^ 8) (hd32 : p.dictID < 256 ^ 4) (blocks : List Bytes)
+    (hall : ∀ b ∈ blocks, b ≠ [] ∧ b.length ≤ blockSizeOf p.bsid) (hcs : p.contentSize = 0 ∨ p.contentSize = blocks.flatten.length) :
+    pFrame E [] (blocks.length + 1) (frame E hashOf p blocks) = .ok (blocks.flatten, []) :=
+  frameFrom_parses E ok hashOf p hb hcs64 hd32 {} FastR.J_init blocks hall hcs
 
 end LZ4V.Model.FrameFast
